@@ -51,7 +51,7 @@ def run(chk):
             for n in range(1, L + 1):
                 seqs = list(itertools.product(range(len(pool)), repeat=n))
                 if n == 3 and chk.tier == 'quick': seqs = [s for i, s in enumerate(seqs) if (i + chk.seed) % 9 == 0]
-                if n == 4: seqs = [s for i, s in enumerate(seqs) if (i + chk.seed) % 31 == 0]
+                if n == 4: seqs = [s for i, s in enumerate(seqs) if (i + chk.seed) % 43 == 0]
                 for i, s in enumerate(seqs):
                     yield tuple((idx, forms[(i + k + idx) % len(forms)]) for k, idx in enumerate(s))
 
